@@ -74,6 +74,13 @@ CHECKS = {
                 text="Single faults and pairs (component x kind x first hit x duration) are injected at the I/O boundary of a running controller + sensor monitor for every fan backend x "
                      "sensor backend x curve type; the process must survive and afterwards either keep evaluating the curve or have handed the fan back (C03 predicate).",
                 note="Trusted base: harness, virtual driver, scripts for cmd backends; faults during the initial analysis are outside the statement ('at any control cycle') and not injected."),
+    "C15": dict(level="exploration", ref="5 (C15)", technique="runtime monitor: offline checker over the fan-side write/read log of each start in generated start/reset/init sequences (in-process; process-level restarts of the real daemon)",
+                text="For every start in generated sequences the device-side log before the first regulation cycle is checked: no PWM sweep and no RPM-curve measurement when the fan "
+                     "was characterised before and nothing was discarded; never a sweep with a configured pwmMap; no RPM-curve measurement with minPwm+maxPwm configured (known finding).",
+                note="Trusted base: harness, virtual driver; a start is emulated by fresh fan/controller objects on a real bbolt file; the process-level layer restarts the real binary."),
+    "C16": dict(level="exploration", ref="5 (C16)", technique="runtime monitor: interval-overlap checker over a globally sequenced device event log, with a positive control run",
+                text="Several real controllers analyse their fans concurrently; analysis intervals are taken from a globally sequenced event log and must be pairwise disjoint with the "
+                     "option off; the same workload with the option on must overlap (otherwise the case does not count)."),
 }
 
 
